@@ -118,7 +118,7 @@ PROPS = {
         "technique": 'Lean 4 proof (inversion lemmas over the decode chain; reduction to the MAC equation) + differential correspondence over a forged-reply catalogue',
         "ref": '§5 C04',
         "proofs": ['Bmc.Proofs.C04'],
-        "scenarios": ['send'],
+        "scenarios": ['send', 'dec:v2none,v2sha1,v2md5,v2sha256,aes'],
         "rule": 'send: exhaustive reply scripts over the 18-letter alphabet {final, error code, busy C0, timeout C3, reply to another command, unauthenticated forgery with foreign/own session ID, authentic but foreign session, flipped AuthCode, wrong key, flipped ciphertext, bad confidentiality pad, authentic unencrypted, garbage, non-message packet, runt message, 7-byte response, lost} to depth 3 (thorough: depth 3 exhaustively + a quarter of depth 4) on suite 3 and one level less on four more suites, random operation (incl. group/OEM NetFns), LUN and request body of 0..39 bytes per script, every request length 0..63, counters at 0/1/2^31-1/2^32-3, unserialisable requests. Non-trivial = script with a non-final outcome before its end; distinct = distinct op line.',
         "modelled": ["in-session and session-less retry loops, layer (re)initialisation, LayersDecoder chain, sequence counter: hand models tied by byte-exact correspondence"],
         "assumptions": ["a Send that fails before anything leaves the socket is outside the outcome alphabet (it still consumes a number, which is the safe choice)"],
